@@ -12,32 +12,34 @@ from .. import estyping
 LEVEL_TEXT = ('static analysis: (D1) every public estimator of cnvlib/descriptives.py is wrapped by on_array / on_weighted_array, the scale '
               'estimators with default 0 (a single value has no spread) and the location estimators without one; the wrappers strip NaN, return '
               'NaN for no data and the value / the default for a single value; (D2) comparisons against a float-epsilon tolerance that decide '
-              "equality are two-sided (abs(...)), and the weighted median's tie branch averages the two values around the cumulative weight it "
-              'tested; (D3) every smoother path that pads by `wing` (through check_inputs / _pad_array) returns a [wing:-wing] slice of the '
-              'padded result (one value per input; the weighted Kaiser path, outside the property, is reported as information); (D3c) the '
-              'convolution kernels, evaluated exactly on literal arrays, return a constant signal unchanged for uniform and non-uniform weights '
-              'and 1-3 passes; (D4) a dimension-analysis style type system interpreted over the estimator bodies, all paths: under x -> x + c '
-              'every value is LOC (moves by c) or INV (unchanged) and under x -> s*x has a degree; each location estimator must return LOC, each '
-              'scale estimator INV of degree 1 and provably non-negative (sign domain: abs / even power / sqrt / sorted difference / ordered '
-              'percentile difference) ; a multiplicity rule rides on the same interpretation: an array that went through np.unique / '
-              'drop_duplicates may feed extremes, lengths and element picks but not a mean, median, percentile, sum, density or estimator (ties '
-              "would count once) (the two biweights' max(c*mad, epsilon) mixes a degree-1 value with an absolute constant: that is the property's"
-              ' own exception and leaves only their scale typing undecided); (D5) the same bodies interpreted on the uniform vector (k, k, k) '
-              'with exact arithmetic in k: every scale estimator evaluates to 0 and every location estimator to k, and a library call whose '
-              "precondition constant data violates (gaussian_kde needs a non-singular covariance) is a finding; the wrappers' contract (NaN "
-              'stripped, no data -> NaN, one value -> the value / 0) is evaluated the same way; (D5b) on exactly symmetric data the biweight '
-              'midvariance is the documented 1.4826 * MAD. (D3d) savgol interpreted on constant signals of 2..40 values, weighted or not, five '
-              "parameter sets, with scipy's stated preconditions (polyorder < window_length <= len(signal)) as the contracts of the stubs: no "
-              'precondition is violated and one value per input comes back; (D6) every estimator interpreted through its decorator on 11 literal '
-              'vectors (majority tied, outlier, symmetric, constant, two and twelve values) with exact rational arithmetic equals an independent '
-              "transcription of its formula (biweight location / midvariance, MAD, IQR, Qn with the docstring's factors for n < 400, gapper, "
-              'weighted median / MAD / std). (D3e) rolling_median / rolling_quantile / unweighted kaiser interpreted on literal signals of 2..9 '
-              'values (constant, step, spike, zigzag; widths as a fraction, an integer, wider than the signal) with a stated model of '
-              'Series.rolling(center=True) and np.convolve: one value per input, a constant signal unchanged, values inside the input range; '
-              '_pad_array mirrors exactly `wing` values per side (this replaces matching the text of the [wing:-wing] slices). The typing of D4 '
-              'also carries a rounding taint -- a value that went through a data-dependent division may not enter an equality-within-epsilon test'
-              ' (exact ties of equal weights would be missed) -- and rejects np.isclose on location-type or scale-dependent values. Does not '
-              "decide numerical values on general data beyond those vectors, Qn's factor for n >= 400, finiteness of weighted smoother outputs.")
+              "equality are two-sided (abs(...)) -- which two values the weighted median's tie branch averages is decided by the defining-"
+              'inequality clause and the D6 oracle, not by matching the slice; (D3) every smoother path that pads by `wing` (through check_inputs'
+              ' / _pad_array) returns a [wing:-wing] slice of the padded result (one value per input; the weighted Kaiser path, outside the '
+              'property, is reported as information); (D3c) the convolution kernels, evaluated exactly on literal arrays, return a constant '
+              'signal unchanged for uniform and non-uniform weights and 1-3 passes; (D4) a dimension-analysis style type system interpreted over '
+              'the estimator bodies, all paths: under x -> x + c every value is LOC (moves by c) or INV (unchanged) and under x -> s*x has a '
+              'degree; each location estimator must return LOC, each scale estimator INV of degree 1 and provably non-negative (sign domain: abs '
+              '/ even power / sqrt / sorted difference / ordered percentile difference) ; a multiplicity rule rides on the same interpretation: '
+              'an array that went through np.unique / drop_duplicates may feed extremes, lengths and element picks but not a mean, median, '
+              "percentile, sum, density or estimator (ties would count once) (the two biweights' max(c*mad, epsilon) mixes a degree-1 value with "
+              "an absolute constant: that is the property's own exception and leaves only their scale typing undecided); (D5) the same bodies "
+              'interpreted on the uniform vector (k, k, k) with exact arithmetic in k: every scale estimator evaluates to 0 and every location '
+              'estimator to k, and a library call whose precondition constant data violates (gaussian_kde needs a non-singular covariance) is a '
+              "finding; the wrappers' contract (NaN stripped, no data -> NaN, one value -> the value / 0) is evaluated the same way; (D5b) on "
+              'exactly symmetric data the biweight midvariance is the documented 1.4826 * MAD. (D3d) savgol interpreted on constant signals of '
+              "2..40 values, weighted or not, five parameter sets, with scipy's stated preconditions (polyorder < window_length <= len(signal)) "
+              'as the contracts of the stubs: no precondition is violated and one value per input comes back; (D6) every estimator interpreted '
+              'through its decorator on 11 literal vectors (majority tied, outlier, symmetric, constant, two and twelve values) with exact '
+              'rational arithmetic equals an independent transcription of its formula (biweight location / midvariance, MAD, IQR, Qn with the '
+              "docstring's factors for n < 400, gapper, weighted median / MAD / std). (D3e) rolling_median / rolling_quantile / unweighted kaiser"
+              ' interpreted on literal signals of 2..9 values (constant, step, spike, zigzag; widths as a fraction, an integer, wider than the '
+              'signal) with a stated model of Series.rolling(center=True) and np.convolve: one value per input, a constant signal unchanged, '
+              'values inside the input range; _pad_array mirrors exactly `wing` values per side (this replaces matching the text of the '
+              '[wing:-wing] slices). The typing of D4 also carries a rounding taint -- a value that went through a data-dependent division may '
+              'not enter an equality-within-epsilon test (exact ties of equal weights would be missed) -- and rejects np.isclose on location-type'
+              ' or scale-dependent values. The constant evaluator of D5 / D6 has 2-D arrays (a[:, None] - a, np.triu, mask selection), so '
+              "vectorised pairwise forms are decided as well. Does not decide numerical values on general data beyond those vectors, Qn's factor "
+              'for n >= 400, finiteness of weighted smoother outputs.')
 TECHNIQUE = ('decorator-contract and tolerance lints; structured-dominance pad/unpad pairing; abstract interpretation with a translation/scale '
              'type domain and a uniform-vector domain; exact rational evaluation on literal vectors against independent formula transcriptions; '
              "library-precondition contracts for scipy's savgol")
